@@ -168,6 +168,9 @@ func rawLoadFile(sys fs.FS, fname string, checkBC bool) (*token, error) {
 }
 
 func rawLoadPackage(sys fs.FS, pkg string) (*token, error) {
+	if sys == nil { // no file system: nothing but the built-in packages can be imported
+		return nil, os.ErrNotExist
+	}
 	var matches []string
 	parts := append([]string{"vendor"}, strings.Split(pkg, "/")...)
 	for len(parts) > 0 {
